@@ -18,6 +18,7 @@ TERM_PROP = {"map.collect_vec": "C01", "filter.collect_vec": "C01", "collect_vec
              "seq.max": "C09", "seq.min": "C09", "seq.min_by_key": "C09",
              "fallible.collect_vec": "C05", "fallible.collect_x": "C05", "fallible.count": "C05",
              "fallible.reduce": "C05", "fallible.filter.collect_vec": "C05",
+             "flat_map.long": "C01",
              "params.default": "C12", "params.copied": "C12", "params.cloned": "C12", "params.kept": "C12"}
 
 
